@@ -477,13 +477,21 @@ impl<'a> Searcher<'a> {
                             .map(|(idx, i)| {
                                 let x = &a.get(*i).unwrap().1;
                                 let y = &b.get(*i).unwrap().1;
-                                // integers exactly, other numbers (AVG, variances) by value, the rest as text
-                                let ordering = match (x.parse::<i64>(), y.parse::<i64>()) {
-                                    (Ok(x), Ok(y)) => x.cmp(&y),
-                                    _ => match (x.parse::<f64>(), y.parse::<f64>()) {
-                                        (Ok(x), Ok(y)) => x.total_cmp(&y),
-                                        _ => x.cmp(y),
-                                    },
+                                // a total order (sort_by may panic without one): numbers by value and
+                                // before everything that is no number, integers exactly, the rest as text
+                                let ordering = match (x.parse::<f64>(), y.parse::<f64>()) {
+                                    (Ok(fx), Ok(fy)) => fx
+                                        .total_cmp(&fy)
+                                        .then_with(|| match (x.parse::<i64>(), y.parse::<i64>()) {
+                                            (Ok(ix), Ok(iy)) => ix.cmp(&iy),
+                                            (Ok(_), Err(_)) => std::cmp::Ordering::Less,
+                                            (Err(_), Ok(_)) => std::cmp::Ordering::Greater,
+                                            _ => std::cmp::Ordering::Equal,
+                                        })
+                                        .then_with(|| x.cmp(y)),
+                                    (Ok(_), Err(_)) => std::cmp::Ordering::Less,
+                                    (Err(_), Ok(_)) => std::cmp::Ordering::Greater,
+                                    _ => x.cmp(y),
                                 };
                                 if directions[idx] {
                                     ordering
